@@ -27,7 +27,7 @@ IN_BREAKING = ["img_missing", "img_empty", "img_garbage", "img_directory", "img_
                "right_list", "left_disp_missing", "right_img_wrong_size", "right_grid_three_bands", "mask_empty_string",
                "classif_empty_string", "segm_empty_string"]
 IN_PRESERVING = ["nodata_nan_str", "nodata_nan_float", "nodata_int", "extras_null", "classif_ok", "segm_ok",
-                 "mask_ok"]
+                 "mask_ok", "grid_int_dtype"]
 # fault-then-repair pairs: a path is named while nothing readable is there, later the same path holds a good file
 REPAIR_PAIRS = {"mask_path_missing": "mask_path_repaired", "img_path_garbage": "img_path_repaired",
                 "segm_path_missing": "segm_path_repaired"}
@@ -261,6 +261,13 @@ def apply_in_op(op, inp, w, tmp, uid):
 
         shutil.copyfile(inp.get("_orig_img", {}).get(side, inp[side]["img"]), os.path.join(tmp, f"shared_img_{side}.tif"))
         inp[side]["img"] = os.path.join(tmp, f"shared_img_{side}.tif")
+    elif name == "grid_int_dtype":
+        # a well-formed 2-band grid stored with an integer sample type
+        if not isinstance(inp["left"].get("disp"), str):
+            return False
+        files.write_raster(p("grid_int.tif"), np.stack([np.full((rows, cols), -2), np.full((rows, cols), 2)]),
+                           dtype="int16")
+        inp["left"]["disp"] = p("grid_int.tif")
     elif name == "nodata_nan_str":
         inp[side]["nodata"] = "NaN"
     elif name == "nodata_nan_float":
@@ -303,7 +310,9 @@ class C17:
                 name = rnd.choice(preserving)
             else:
                 name = rnd.choice(breaking)
-            op = {"name": name, "side": rnd.choice(["left", "right"]), "pixel": [rnd.randint(0, 30), rnd.randint(0, 30)]}
+            op = {"name": name, "side": rnd.choice(["left", "right"]),
+                  "pixel": rnd.choice([[0, 0], [-1, -1], [0, -1], [rnd.randint(0, 30), rnd.randint(0, 30)],
+                                       [rnd.randint(0, 30), rnd.randint(0, 30)]])}
             if name == "off_grid_var":
                 op["var"] = rnd.choice(["msk", "classif", "segm"])
             if name == "nodata_int":
@@ -443,8 +452,9 @@ class C17:
         viol, cov, faults = [], {}, {}
         try:
             inp = files.write_world(w, tmp)
-            for x in sc.get("extras", []):
-                apply_in_op({"name": x + "_ok", "side": "left"}, inp, w, tmp, "x")
+            for j_, x in enumerate(sc.get("extras", [])):
+                apply_in_op({"name": x + "_ok", "side": "left" if (sc.get("index", 0) + j_) % 2 == 0 else "right"},
+                            inp, w, tmp, f"x{j_}")
             cfg = {"input": inp, **programs.to_cfg(sc["program"])}
             cfg_path = os.path.join(tmp, "cfg.json")
             files.write_json(cfg_path, cfg)
